@@ -1014,4 +1014,13 @@ def main():
 
 
 if __name__ == "__main__":
-    main()
+    # every temporary file the library creates (NamedTemporaryFile of a rewrite) goes into one scratch directory that is removed afterwards:
+    # injected faults at the removal of such a file leave it behind on purpose
+    _base = tempfile.mkdtemp(prefix="csvio-tmp-")
+    tempfile.tempdir = _base
+    os.environ["TMPDIR"] = _base  # child processes (the really-killed ones of C12) put their scratch under it too
+    try:
+        main()
+    finally:
+        tempfile.tempdir = None
+        shutil.rmtree(_base, ignore_errors=True)
